@@ -79,7 +79,14 @@ def _system(draw, tier):
             A[0][0] = draw(st.sampled_from([0.0, 0.0, 0.125]))
     m = draw(st.integers(1, 3))
     B = [[draw(st.integers(-32, 32)) / 8.0 for _ in range(m)] for _ in range(n)]
-    return {"A": A, "B": B, "cls": cls}
+    # exact power-of-two scaling of the whole system: the property quantifies over float matrices of any magnitude
+    ea = draw(st.sampled_from([0, 0, 0, -10, 10, -24, -30, -40, 30, -60]))
+    eb = draw(st.sampled_from([0, 0, -20, 20, ea]))
+    if ea:
+        A = [[x * 2.0 ** ea for x in r] for r in A]
+    if eb:
+        B = [[x * 2.0 ** eb for x in r] for r in B]
+    return {"A": A, "B": B, "cls": cls, "scale": [ea, eb]}
 
 
 # ------------------------------------------------------------------------------------------------ exact helpers
@@ -127,7 +134,7 @@ def generic_residual(ctx, tag, what, A, X, B):
     for c in range(len(B[0])):
         for i in range(n):
             r = F(B[i][c]) - sum(F(A[i][j]) * F(X[j][c]) for j in range(n))
-            lim = F(1, 10 ** 6) * (sum(abs(F(A[i][j])) * abs(F(X[j][c])) for j in range(n)) + abs(F(B[i][c])) + F(1, 10 ** 6))
+            lim = F(1, 10 ** 6) * (sum(abs(F(A[i][j])) * abs(F(X[j][c])) for j in range(n)) + abs(F(B[i][c])) + F(1, 10 ** 300))
             ctx.check(abs(r) <= lim, tag, "%s returned a result with A x - b = %r in row %d (A=%r, b=%r, x=%r)" % (
                 what, float(-r), i, A, [B[k][c] for k in range(n)], [X[k][c] for k in range(n)]))
 
@@ -191,7 +198,7 @@ def _run_call(ctx, name, A, B, label=""):
                 for c in range(len(B[0])):
                     for i in range(n):
                         r = F(B[i][c]) - sum(F(A[i][j]) * F(X[j][c]) for j in range(n))
-                        lim = F(1, 10 ** 6) * (sum(abs(F(A[i][j])) * abs(F(X[j][c])) for j in range(n)) + abs(F(B[i][c])) + F(1, 10 ** 6))
+                        lim = F(1, 10 ** 6) * (sum(abs(F(A[i][j])) * abs(F(X[j][c])) for j in range(n)) + abs(F(B[i][c])) + F(1, 10 ** 300))
                         ctx.check(abs(r) <= lim, "lu_solve-wrong-answer",
                                   "lu_solve returned x=%r with A x - b = %r in row %d for a non-singular system whose unpivoted "
                                   "elimination meets a zero pivot (A=%r, b=%r)" % ([X[k][c] for k in range(n)], float(-r), i, A, [B[k][c] for k in range(n)]))
@@ -241,7 +248,7 @@ def _run_call(ctx, name, A, B, label=""):
             had = 1.0
             for r in A:
                 had *= max(1e-300, math.sqrt(sum(x * x for x in r)))
-            ctx.check(abs(d) <= 1e-9 * max(1.0, had), "determinant-wrong", "matrix_determinant of a singular matrix %r = %r" % (A, d))
+            ctx.check(abs(d) <= 1e-9 * had, "determinant-wrong", "matrix_determinant of a singular matrix %r = %r" % (A, d))
     ctx.check(A == keepA and B == keepB, "input-modified", "%s modified its input" % name)
     ident = linalg.matrix_identity(n)
     ctx.check(ident == [[1.0 if i == j else 0.0 for j in range(n)] for i in range(n)], "identity-corrupted",
@@ -253,6 +260,7 @@ def check_single(case, ctx):
     A, B = case["A"], case["B"]
     n = len(A)
     ctx.label("class:" + case["cls"])
+    ctx.label("scaled-matrix", bool(case.get("scale", [0, 0])[0]))
     swap = n >= 2 and max(range(n), key=lambda i: abs(A[i][0])) != 0
     ctx.nt(swap, "row-swap-needed")
     ctx.nt(n >= 4, "n>=4")
@@ -318,7 +326,7 @@ def _helper_cases(draw, tier):
             "M2": [[draw(st.integers(-16, 16)) / 4.0 for _ in range(k)] for _ in range(m)],
             "vec": [draw(st.integers(-16, 16)) / 4.0 for _ in range(m)],
             "k": draw(st.integers(0, 40)), "i": draw(st.integers(0, 44)),
-            "lin": [draw(st.integers(-64, 64)) / 8.0, draw(st.integers(1, 64)) / 8.0, draw(st.integers(2, 40))]}
+            "lin": [draw(st.integers(-64, 64)) / 8.0, draw(st.integers(1, 64)) / 8.0 * draw(st.sampled_from([1.0, 1.0, -1.0])), draw(st.integers(2, 40))]}
 
 
 def check_helpers(case, ctx):
@@ -361,7 +369,8 @@ def check_helpers(case, ctx):
     ls = linalg.linspace(s0, s0 + span, num)
     ctx.check(len(ls) == num, "linspace-count", "linspace(%r, %r, %d) has %d values" % (s0, s0 + span, num, len(ls)))
     ctx.check(abs(ls[0] - s0) <= 1e-15 * (1 + abs(s0)) and abs(ls[-1] - (s0 + span)) <= 1e-14 * (1 + abs(s0 + span)), "linspace-ends", "linspace ends %r, %r" % (ls[0], ls[-1]))
-    ctx.check(all(abs(F(x) - (F(s0) + F(span) * F(j, num - 1))) <= F(1, 10 ** 13) * (1 + abs(F(s0)) + F(span)) for j, x in enumerate(ls)), "linspace-steps", "linspace(%r, %r, %d) = %r" % (s0, s0 + span, num, ls))
+    ctx.label("linspace-decreasing", span < 0)
+    ctx.check(all(abs(F(x) - (F(s0) + F(span) * F(j, num - 1))) <= F(1, 10 ** 13) * (1 + abs(F(s0)) + abs(F(span))) for j, x in enumerate(ls)), "linspace-steps", "linspace(%r, %r, %d) = %r" % (s0, s0 + span, num, ls))
 
 
 SUBCHECKS = [
